@@ -107,6 +107,56 @@ package chain
 //@   ensures[balance-kept] forall k string :: $bal[k] == old($bal[k])
 //@   ensures result1 != nil ==> nonceUnchanged()
 
+// ---------------------------------------------------------------- applying one transaction (C02, C03, C05)
+// $blockBal / $blockNonce: what the block's state trie holds (only MergeMPTChanges publishes
+// into it). $bal / $nonce: what the current transaction state context sees.
+
+// A new transaction context starts from the block state with empty transfer queues.
+//@ func (*Chain).NewStateContext
+//@   trusted
+//@   ensures balances != nil && fresh(balances) && len(balances.transfers) == 0 && len(balances.signedTransfers) == 0 && balances.mutex != nil && fresh(balances.mutex) && held(balances.mutex) == 0
+//@   ensures forall k string :: $bal[k] == $blockBal[k] && $nonce[k] == $blockNonce[k]
+//@   ensures $ntr == 0
+//@   modifies $bal, $nonce, $ntr, $out, $in
+
+//@ func CreateTxnMPT
+//@   trusted
+//@   ensures result != nil
+//@   modifies nothing
+
+// Smart contracts act on chain state only through the state context: they queue transfers and
+// write trie nodes; they do not write client balances or nonces themselves (assumption).
+//@ func (*Chain).ExecuteSmartContract
+//@   trusted
+//@   modifies payload(balances).$all, $out, $in, $ntr, $saved, $nsaved, $deleted
+//@   ensures payload(balances, StateContext).mutex == old(payload(balances, StateContext).mutex)
+
+//@ func (*Chain).emitUserEvent
+//@   trusted
+//@   modifies nothing
+
+// The deferred epilogue of updateState (cache commit / missing-node sync request) touches neither
+// the block state nor anything else modelled.
+//@ func (*Chain).updateState$1
+//@   prop C02, C03, C05
+//@   modifies nothing
+
+// updateState applies one transaction to the block state.
+//@ func (*Chain).updateState
+//@   prop C02, C03, C05
+//@   requires c != nil && b != nil && txn != nil && b.PrevBlock != nil && $blockNonce[txn.ClientID] >= 0 && $blockNonce[txn.ClientID] < MaxInt64
+//@   ensures[nonce-exactly-next] err == nil ==> txn.Nonce == old($blockNonce[txn.ClientID]) + 1
+//@   ensures[nonce-plus-one] err == nil ==> $blockNonce[txn.ClientID] == old($blockNonce[txn.ClientID]) + 1
+//@   ensures[other-nonces-kept] err == nil ==> forall k string :: k != txn.ClientID ==> $blockNonce[k] == old($blockNonce[k])
+//@   ensures[failure-changes-nothing] err != nil ==> forall k string :: $blockBal[k] == old($blockBal[k]) && $blockNonce[k] == old($blockNonce[k])
+//@   ensures[supply-cap] txn.Value > MAXSUPPLY ==> err != nil
+//@   ensures[wrong-nonce-rejected] txn.Nonce != old($blockNonce[txn.ClientID]) + 1 ==> err != nil
+//@   loop 1 header "for _, transfer := range sctx.GetTransfers()"
+//@   loop 1 invariant forall k string :: $nonce[k] == old($blockNonce[k]) && $blockNonce[k] == old($blockNonce[k]) && $blockBal[k] == old($blockBal[k])
+//@   loop 3 header "for _, signedTransfer := range sctx.GetSignedTransfers()"
+//@   loop 3 invariant forall k string :: $nonce[k] == old($blockNonce[k]) && $blockNonce[k] == old($blockNonce[k]) && $blockBal[k] == old($blockBal[k])
+//@   loop 5 invariant forall k string :: $nonce[k] == (k == txn.ClientID ? old($blockNonce[k]) + 1 : old($blockNonce[k])) && $blockNonce[k] == old($blockNonce[k]) && $blockBal[k] == old($blockBal[k])
+
 //@ func (*Chain).GetMagicBlockNoOffset
 //@   prop C40
 //@   requires c != nil && rheld(c.mbMutex) == 0
